@@ -211,7 +211,7 @@ def run(ctx, report: Report) -> None:
     for short in anchored:
         fn = mmod.functions.get(f'CSSMatch.{short}')
         if fn is None:
-            raise AnalysisError(f'CSSMatch.{short} not found')
+            continue        # the helper was renamed, merged or split: the iframe rows of the pipeline table (R7) decide
         bad = sorted({unparse(x) for x in walk_no_nested(fn) if isinstance(x, ast.Attribute) and isinstance(x.value, ast.Name)
                       and x.value.id == 'self' and x.attr in ('root', 'scope', 'tag')})
         r2.instance({'function': short, 'global_anchors_read': bad}, key=f'anchor|{short}')
@@ -220,12 +220,7 @@ def run(ctx, report: Report) -> None:
             r2.violation(f'css_match.CSSMatch.{short} anchors on {b}', mmod.where(fn),
                          f'{short} reads `{b}`, the root/target of the whole call: the context of a state pseudo-class (its form, '
                          f'its radio group, its direction) must be found by walking up from the element inside its own document')
-    _, fb = src.func('css_match.CSSMatch.find_bidi')
-    ok = "'iframe'" in unparse(fb)
-    r2.instance({'find_bidi': 'skips iframe by name', 'ok': ok}, key='bidi')
-    r2.obligation(ok)
-    if not ok:
-        r2.violation('css_match.CSSMatch.find_bidi iframe', mmod.where(fb), 'find_bidi no longer skips iframe elements')
+    # find_bidi skipping the content of nested iframes: row of the pipeline table (R7)
 
     # ---- R3 ----------------------------------------------------------------------------------------------
     r3 = report.rule('C17-R3', 'memo tables are identity-keyed lists', floor=2)
